@@ -248,6 +248,25 @@ def c16d(prog, R):
                 r.bad("%s|swallows %s" % (root, short(callee)),
                       "the error of a fallible storage call is dropped (%s) and the operation carries on as if it had "
                       "succeeded" % ", ".join(sorted(fates)), f.where(c.bb))
+    # higher-order swallowing: Result::ok / unwrap_or* handed to an adaptor, or flatten() over an iterator of Results
+    n_cb = 0
+    for p, f in sorted(prog.fns.items()):
+        if f.derived:
+            continue
+        for c in f.calls:
+            for cb in prog.callbacks(c):
+                n_cb += 1
+                scb = cb
+                if "std::result::Result" in scb and scb.split("::")[-1] in ("ok", "err", "unwrap_or_default", "unwrap_or", "is_ok"):
+                    r.bad("%s|passes %s to %s" % (prog.fns.get(f.root, f).path, short(scb), short(c.sres)),
+                          "errors are filtered out of a stream of results (%s as a callback)" % short(scb), f.where(c.bb))
+            if c.sres in ("std::iter::Iterator::flatten", "std::iter::Iterator::flat_map") and c.arg_tys and \
+                    "Result<" in c.arg_tys[0] and ("error::Error" in c.arg_tys[0] or "io::Error" in c.arg_tys[0]):
+                # flatten over Item = Result<..> silently skips the Err items
+                if "Item = std::result::Result" in c.arg_tys[0] or c.arg_tys[0].count("Result<") and "Option<" not in c.arg_tys[0]:
+                    r.bad("%s|flattens an iterator of Results" % prog.fns.get(f.root, f).path,
+                          "Iterator::flatten over Result items drops every error", f.where(c.bb))
+    r.ok("census|%d callbacks inspected" % (n_cb // 50 * 50), "no Result::ok / unwrap_or* passed as a callback", nontrivial=False)
     r.ok("census|%d fallible calls classified" % (n_calls // 50 * 50), "%d calls returning crate::Result/io::Result" % n_calls,
          nontrivial=False)
     if n_calls < 900:
